@@ -2238,12 +2238,21 @@ class DesignSpace:
             msg = f"The variable {current_name} is not in the design space."
             raise ValueError(msg)
 
-        for dictionary in [self.normalize, self._variables, self.__names_to_indices]:
-            dictionary[new_name] = dictionary.pop(current_name)
-
-        current_value = self._current_value.pop(current_name, None)
-        if current_value is not None:
-            self._current_value[new_name] = current_value
+        for dictionary in [
+            self.normalize,
+            self._variables,
+            self.__names_to_indices,
+            self.__current_value,
+            self.__norm_current_value,
+        ]:
+            # Rename the key in place to preserve the order of the variables,
+            # which the indices and the cached arrays rely on.
+            items = [
+                (new_name if name == current_name else name, value)
+                for name, value in dictionary.items()
+            ]
+            dictionary.clear()
+            dictionary.update(items)
 
     def initialize_missing_current_values(self) -> None:
         """Initialize the current values of the design variables when missing.
